@@ -460,7 +460,7 @@ NonLeaf(h) ==
        ELSE {}) \cup
       (* ---- calls of captured one-line helpers (C05; table in Sem.HelperLam) ---- *)
       (IF s = "Int" /\ Enabled("Helper") THEN
-          {Fn(hn, <<Hole("Int", r, ns, ss)>>) : hn \in {"h_id", "h_inc", "h_lam", "h_sub", "h_la", "h_lb", "h_cd", "h_th", "h_re1", "h_re2", "h_gl"}} \cup
+          {Fn(hn, <<Hole("Int", r, ns, ss)>>) : hn \in {"h_id", "h_inc", "h_lam", "h_sub", "h_la", "h_lb", "h_cd", "h_th", "h_re1", "h_re2", "h_gl", "h_l1", "h_l2"}} \cup
           {Fn(hn, <<Hole("Jet", r, ns, ss)>>) : hn \in {"h_nest", "h_two", "h_cap", "h_comp", "h_comp2"}} \cup
           {Fn("h_sub", <<Hole("Int", sp[1], ns, ss), Hole("Int", sp[2], ns, ss)>>) : sp \in Split2(r)} \cup
           {Fn("h_nest2", <<Hole("Jet", sp[1], ns, ss), Hole("Int", sp[2], ns, ss)>>) : sp \in Split2(r)} \cup
